@@ -36,6 +36,46 @@ def c23Ev : C23.Ev → String
   | .hookServerConnected => "hookServerConnected" | .completedOk => "completedOk"
   | .handleConnection => "handleConnection" | .hookServerDisconnected => "hookServerDisconnected"
 
+/-- `k=tp/hh:port,hh:port` joined by `&`; `-` for none -/
+def c23Keyed (s : String) : Option (List (Nat × C23.Server)) :=
+  if s == "-" then some [] else
+  (s.splitOn "&").mapM fun e =>
+    match e.splitOn "=" with
+    | [k, srv] => match k.toNat?, c23Server srv with
+      | some k, some srv => some (k, srv)
+      | _, _ => none
+    | _ => none
+
+def c23Keys (s : String) : Option (List Nat) :=
+  if s == "-" then some [] else (s.splitOn ",").mapM String.toNat?
+
+/-- `R;<0|1>;<keys>;<start>`  or  `C;<dhhex>;<dp>;<tp>;<0|1>` -/
+def c23Op (s : String) : Option C23.Op :=
+  match s.splitOn ";" with
+  | ["R", so, keys, start] =>
+    match c23Keys keys, c23Keyed start with
+    | some keys, some start => if so == "1" then some (.reconfigure true keys start)
+                               else if so == "0" then some (.reconfigure false keys start) else none
+    | _, _ => none
+  | ["C", dh, dp, tp, ok] =>
+    match hexOr dh, dp.toNat?, c23Tp tp with
+    | some dh, some dp, some tp => if ok == "1" then some (.connect dh dp tp true)
+                                   else if ok == "0" then some (.connect dh dp tp false) else none
+    | _, _, _ => none
+  | _ => none
+
+def c23ShowTp : C23.ModeTransport → String
+  | .tcp => "tcp" | .udp => "udp" | .both => "both"
+
+def c23ShowState (st : C23.State) : String :=
+  if st.isEmpty then "-" else
+  "&".intercalate (st.map fun (k, srv) =>
+    s!"{k}={c23ShowTp srv.transport}/" ++ ",".intercalate (srv.addrs.map fun (h, p) => s!"{showBytes h}:{p}"))
+
+def c23ShowOut : C23.Out → String
+  | .listeners st => "L;" ++ c23ShowState st
+  | .trace evs => "T;" ++ ",".intercalate (evs.map c23Ev)
+
 def c23Step (line : String) : String :=
   match fields line with
   | ["sc", dh, dp, tp, ok, srv] =>
@@ -46,6 +86,10 @@ def c23Step (line : String) : String :=
       (if C23.denotesOwnSocket servers dh dp tp then "own" else "other") ++ " " ++
       ",".intercalate ((C23.openTrace servers dh dp tp (ok == "1")).map c23Ev)
     | _, _, _, _ => "bad-op"
+  | "run" :: ops =>
+    match ops.mapM c23Op with
+    | some ops => " ".intercalate ((C23.run [] ops).map c23ShowOut)
+    | none => "bad-op"
   | _ => "bad-op"
 
 def main : IO Unit := runPure c23Step
